@@ -9,6 +9,7 @@ package main
 import (
 	"fmt"
 	"strings"
+	"sync"
 
 	"github.com/php-any/origami/data"
 	"github.com/php-any/origami/node"
@@ -80,12 +81,15 @@ func buildScript(sc scenario) (func() []sched.Body, func() *scriptState) {
 	setup := func() []sched.Body {
 		st = &scriptState{state: &state{ch: channel.NewChannel()}}
 		marks := map[int]int{}
+		var hmu sync.Mutex // harness records are touched from several goroutines during teardown
 		p := parser.NewParser()
 		vm := ort.NewVM(p)
 		std.Load(vm)
 		rv := vm.(*ort.VM)
 		nextID := 0
 		rv.RegisterFunction("cid", func() int {
+			hmu.Lock()
+			defer hmu.Unlock()
 			// ids of the shared-closure producers: the indexes of the S roles, in arrival order
 			k := 0
 			for i, r := range sc.Roles {
@@ -100,26 +104,43 @@ func buildScript(sc scenario) (func() []sched.Body, func() *scriptState) {
 			return 99
 		})
 		rv.RegisterFunction("cgate", func() int { vshim.Yield("cgate"); return 0 })
-		rv.RegisterFunction("cmark", func(t int) int { marks[t] = sched.Now(); return 0 })
+
+		rv.RegisterFunction("cmark", func(t int) int { hmu.Lock(); defer hmu.Unlock(); marks[t] = sched.Now(); return 0 })
 		rv.RegisterFunction("csent", func(t int, v int, ok bool) int {
+			hmu.Lock()
+			defer hmu.Unlock()
 			st.sends = append(st.sends, sendRec{t, v, marks[t], sched.Now(), ok})
 			return 0
 		})
-		rv.RegisterFunction("crecv", func(t int, v int) int { st.recvs = append(st.recvs, recvRec{t, v, sched.Now()}); return 0 })
-		rv.RegisterFunction("cnull", func(t int) int { st.recvs = append(st.recvs, recvRec{t, -1, sched.Now()}); return 0 })
+		rv.RegisterFunction("crecv", func(t int, v int) int {
+			hmu.Lock()
+			defer hmu.Unlock()
+			st.recvs = append(st.recvs, recvRec{t, v, sched.Now()})
+			return 0
+		})
+		rv.RegisterFunction("cnull", func(t int) int {
+			hmu.Lock()
+			defer hmu.Unlock()
+			st.recvs = append(st.recvs, recvRec{t, -1, sched.Now()})
+			return 0
+		})
 		rv.RegisterFunction("cclosed", func(t int) int {
+			hmu.Lock()
+			defer hmu.Unlock()
 			st.closeBegin = append(st.closeBegin, marks[t])
 			st.closeEnd = append(st.closeEnd, sched.Now())
 			return 0
 		})
 		rv.RegisterFunction("cobs", func(a bool, l int, b bool) int {
+			hmu.Lock()
+			defer hmu.Unlock()
 			st.obs = append(st.obs, fmt.Sprintf("%v,%d,%v", a, l, b))
 			if a && !b {
 				st.obs = append(st.obs, "REOPENED")
 			}
 			return 0
 		})
-		rv.RegisterFunction("cdrain", func(v int) int { st.left = append(st.left, v); return 0 })
+		rv.RegisterFunction("cdrain", func(v int) int { hmu.Lock(); defer hmu.Unlock(); st.left = append(st.left, v); return 0 })
 		vm.SetThrowControl(func(acl data.Control) { st.uncaught = append(st.uncaught, acl.AsString()) })
 		prog, acl := p.ParseString(src, "c09.zy")
 		if acl != nil {
